@@ -201,16 +201,26 @@ impl FileSystem {
         Ok(upload_id)
     }
 
-    pub(crate) async fn verify_upload_id(&self, cred: Option<&Credentials>, upload_id: &Uuid) -> Result<bool> {
-        let upload_info_path = self.get_upload_info_path(upload_id)?;
-        if upload_info_path.exists().not() {
-            return Ok(false);
+    /// `NoSuchUpload` if the upload does not exist
+    pub(crate) fn check_upload_exists(&self, upload_id: &Uuid) -> S3Result<()> {
+        if self.get_upload_info_path(upload_id)?.exists().not() {
+            return Err(s3_error!(NoSuchUpload));
         }
+        Ok(())
+    }
 
-        let content = fs::read(&upload_info_path).await?;
-        let ak: Option<String> = serde_json::from_slice(&content)?;
+    /// `NoSuchUpload` if the upload does not exist, `AccessDenied` if it was created with other credentials
+    pub(crate) async fn verify_upload_id(&self, cred: Option<&Credentials>, upload_id: &Uuid) -> S3Result<()> {
+        self.check_upload_exists(upload_id)?;
 
-        Ok(ak.as_deref() == cred.map(|c| c.access_key.as_str()))
+        let upload_info_path = self.get_upload_info_path(upload_id)?;
+        let content = try_!(fs::read(&upload_info_path).await);
+        let ak: Option<String> = try_!(serde_json::from_slice(&content));
+
+        if ak.as_deref() != cred.map(|c| c.access_key.as_str()) {
+            return Err(s3_error!(AccessDenied));
+        }
+        Ok(())
     }
 
     pub(crate) async fn delete_upload_id(&self, upload_id: &Uuid) -> Result<()> {
